@@ -34,6 +34,33 @@ class Report:
                 'solver_s': round(self.solver_s, 3), 'inconclusive': self.inconclusive, 'bounds': bounds, 'detail': self.detail}
 
 
+CROSS = {'budget': 0, 'done': 0, 'agree': 0, 'unknown': 0, 'disagree': 0, 'every': 1, 'n': 0}
+
+
+def cross_check(smt2, verdict):
+    """second opinion on a query from independent solvers (cvc5 and the z3 5.1 CLI); 'unknown'/timeouts do not count"""
+    import tempfile
+    with tempfile.NamedTemporaryFile('w', suffix='.smt2', delete=False) as f:
+        f.write('(set-logic ALL)\n' + smt2 + '\n')
+        path = f.name
+    try:
+        for cmd in (['cvc5', '--lang', 'smt2', '--tlimit=8000', path], ['z3-new', '-T:8', path]):
+            try:
+                out = subprocess.run(cmd, stdout=subprocess.PIPE, stderr=subprocess.STDOUT, text=True, timeout=20).stdout
+            except Exception:
+                CROSS['unknown'] += 1
+                continue
+            first = (out.strip().split('\n') or [''])[0].strip()
+            if '(error' in out or first not in ('sat', 'unsat'):
+                CROSS['unknown'] += 1
+            elif first == verdict:
+                CROSS['agree'] += 1
+            else:
+                CROSS['disagree'] += 1
+    finally:
+        os.unlink(path)
+
+
 def solve(ex, rep, cons, timeout_ms=60000):
     s = Solver()
     s.set('timeout', timeout_ms)
@@ -43,6 +70,10 @@ def solve(ex, rep, cons, timeout_ms=60000):
     r = s.check()
     rep.solver_s += time.time() - t0
     rep.queries += 1
+    CROSS['n'] += 1
+    if CROSS['done'] < CROSS['budget'] and r in (sat, unsat) and CROSS['n'] % CROSS['every'] == 0:
+        CROSS['done'] += 1
+        cross_check(s.to_smt2().replace('(check-sat)', '') + '(check-sat)', 'sat' if r == sat else 'unsat')
     return r, (s.model() if r == sat else None)
 
 
@@ -457,6 +488,8 @@ def run(task, tier='quick', seed=0, logdir=None):
         ex = Executor(mir, consts={'WAD_SCALE': wad_scale_from_source()})
         rep.detail.append({'mir': info})
         part = task.get('part')
+        CROSS.update({'budget': 12 if tier == 'quick' else 300, 'done': 0, 'agree': 0, 'unknown': 0, 'disagree': 0, 'n': 0,
+                      'every': 7 if tier == 'quick' else 1})
         if part == 'i128':
             check_i128(ex, rep)
             validate_translator(ex, rep, seed, 600 if tier == 'quick' else 10000)
@@ -466,6 +499,9 @@ def run(task, tier='quick', seed=0, logdir=None):
             check_wad(ex, rep)
         rep.queries += ex.queries
         rep.solver_s += ex.solver_s
+        rep.detail.append({'cross_solver': dict(CROSS)})
+        if CROSS['disagree']:
+            rep.inconclusive = 'solvers disagree on %d queries (z3 4.8 vs cvc5 / z3 5.1)' % CROSS['disagree']
         realise(ex, rep)
     except NotImplementedError as e:
         rep.inconclusive = 'MIR construct outside the translator: %s' % e
